@@ -1,11 +1,20 @@
-(* Correspondence definitions for C32: evaluate the Quote/Unquote model on the cases the implementation ran. *)
-From Coq Require Import List NArith Bool.
+(* Correspondence definitions for C32: evaluate the Quote/Unquote model and the JSON document model on the cases
+   the implementation ran. *)
+From Coq Require Import List NArith ZArith Bool.
 Import ListNotations.
-From GMS Require Import Codec.Charset Codec.JsonQuote.
+From GMS Require Import Codec.Charset Codec.JsonQuote Codec.C32Json.
 Open Scope N_scope.
 
-(* op: 0 Quote, 1 Unquote, 2 UnquoteBytes (capacity = length); input; observed outcome *)
-Definition case : Type := (N * list N * rres)%type.
+(* CStr: op 0 Quote, 1 Unquote, 2 UnquoteBytes; input; observed outcome.
+   CPrint: a document (integers and strings) and the text CAST(CAST(text AS JSON) AS CHAR) returned by the engine.
+   CCmp: two documents and the sign the engine's <, =, > report (-1, 0, 1).
+   CPath: op 0 JSON_EXTRACT, 1 JSON_CONTAINS_PATH, 2 JSON_SET, 3 JSON_INSERT, 4 JSON_REPLACE, 5 JSON_REMOVE,
+   6 JSON_ARRAY_APPEND; document, path legs, value; observed result text (None = SQL NULL). *)
+Inductive case : Type :=
+| CStr (op : N) (s : list N) (obs : rres)
+| CPrint (d : json) (obs : list N)
+| CCmp (a b : json) (obs : Z)
+| CPath (op : N) (d : json) (p : list leg) (v : json) (obs : option (list N)).
 
 Definition rres_eqb (a b : rres) : bool :=
   match a, b with
@@ -22,7 +31,33 @@ Definition run (op : N) (s : list N) : rres :=
   | _ => unquote_bytes s
   end.
 
-Definition ok (c : case) : bool := let '(op, s, obs) := c in rres_eqb (run op s) obs.
+Definition opt_eqb (a b : option (list N)) : bool :=
+  match a, b with
+  | Some x, Some y => ns_eqb x y
+  | None, None => true
+  | _, _ => false
+  end.
+
+Definition run_path (op : N) (d : json) (p : list leg) (v : json) : option (list N) :=
+  match op with
+  | 0 => option_map print (lookup p d)
+  | 1 => Some (if contains_path p d then [49] else [48])
+  | 2 => Some (print (fst (upd SET p d v)))
+  | 3 => Some (print (fst (upd INSERT p d v)))
+  | 4 => Some (print (fst (upd REPLACE p d v)))
+  | 5 => Some (print (fst (upd REMOVE p d v)))
+  | _ => Some (print (fst (upd APPEND p d v)))
+  end.
+
+Definition cmp_z (c : comparison) : Z := match c with Lt => (-1)%Z | Eq => 0%Z | Gt => 1%Z end.
+
+Definition ok (c : case) : bool :=
+  match c with
+  | CStr op s obs => rres_eqb (run op s) obs
+  | CPrint d obs => ns_eqb (print d) obs
+  | CCmp a b obs => (cmp_z (compare_json a b) =? obs)%Z
+  | CPath op d p v obs => opt_eqb (run_path op d p v) obs
+  end.
 
 Definition mismatches (cs : list (N * case)) : list N :=
   map fst (filter (fun p => negb (ok (snd p))) cs).
